@@ -21,11 +21,11 @@ fn dec(n: i64) -> Vec<u8> {
 impl Kernel {
     pub fn sys_open(&mut self, path: &[u8]) -> Result<OpenFile, i32> {
         let eff = self.enter(CallKind::Open, path);
+        if path.starts_with(b"/dev/") {
+            self.gt.dev_opens.push(path.to_vec());
+        }
         let r = (|| {
             if let Some(Effect::Errno(e)) = eff {
-                if path.starts_with(b"/dev/") {
-                    self.gt.dev_opens.push(path.to_vec());
-                }
                 return Err(e);
             }
             let (content, mode, regular, kind) = self.vfs_lookup(path)?;
